@@ -3,6 +3,7 @@ extracted from /repo on this run + spliced contracts.  Returns the text, the lin
 the list of functions under contract."""
 import os
 import re
+import sys
 import json
 from extract import Emitter, Undecided, Source, parse_unit, emit_unit, emit_item
 
@@ -57,6 +58,10 @@ def assemble(repo, layout_path):
             continue
         elif cmd == "include":
             em.add(open(os.path.join(CONTRACTS, rest)).read().rstrip("\n"), kind="spec", file=rest)
+        elif cmd == "lemmas":
+            sys.path.insert(0, os.path.join(VERIF, "lib"))
+            import engine_l
+            em.add(engine_l.verus_axioms(os.path.join(CONTRACTS, "lemmas", rest)), kind="lemma-import", file=rest)
         elif cmd == "raw":
             em.add(rest, kind="shim")
         elif cmd == "type":
